@@ -33,3 +33,6 @@ def run(repo, res, tier):
     # the dialect's grammar is the encoder's own, whatever decoder the caller hands over
     from .. import hookrules as _hk12b
     _hk12b.rule_ctor_default(repo, res)
+    # the final character sweep asks grammar.char_allowed: its accepted set is the dialect's character set (interval analysis)
+    from . import common as _c12
+    _c12.rule_i1(repo, res)
